@@ -119,6 +119,9 @@ pub fn extras() -> Vec<&'static str> {
         // inefficient cogeneration whose export is mostly absorbed by non-EPB uses, with a little PV
         "0,CONSUMO,ILU,ELECTRICIDAD,10\n0,CONSUMO,NEPB,ELECTRICIDAD,90\n1,CONSUMO,COGEN,GASNATURAL,500\n1,PRODUCCION,EL_COGEN,100\n2,PRODUCCION,EL_INSITU,10",
         "0,CONSUMO,ILU,ELECTRICIDAD,10,10\n0,CONSUMO,NEPB,ELECTRICIDAD,90,40\n1,CONSUMO,COGEN,GASNATURAL,500,300\n1,PRODUCCION,EL_COGEN,100,50\n2,PRODUCCION,EL_INSITU,10,20",
+        // cogeneration units that burn fuel in steps in which they deliver no electricity (stand-by, heat-led operation), two fuels, exporting
+        "0,CONSUMO,ILU,ELECTRICIDAD,10,10,10,10\n1,CONSUMO,COGEN,GASNATURAL,40,15,40,0\n1,PRODUCCION,EL_COGEN,20,0,20,0\n1,CONSUMO,COGEN,BIOMASA,10,0,10,5\n2,CONSUMO,CAL,GASNATURAL,30,30,30,30",
+        "0,CONSUMO,ILU,ELECTRICIDAD,2,2,2\n1,CONSUMO,COGEN,GASOLEO,30,9,0\n1,PRODUCCION,EL_COGEN,10,0,0\n3,PRODUCCION,EL_INSITU,0,1,5\n0,CONSUMO,NEPB,ELECTRICIDAD,1,1,1",
         // auxiliary energy as the only electricity component; a step with very little on-site production next to a large one
         "1,CONSUMO,CAL,GASNATURAL,190,150,100\n1,AUX,20,15,10",
         "CONSUMO,ILU,ELECTRICIDAD,5000,5000,5000\nPRODUCCION,EL_INSITU,20000,15,0",
@@ -188,9 +191,12 @@ pub fn random_texts(seed: u64, n: usize) -> Vec<String> {
                     if r.next() % 2 == 0 { l.push(format!("{},PRODUCCION,TERMOSOLAR,{}", id, fmt(&raw(&mut r, 1.5)))); }
                 }
                 4 => {
-                    let el = raw(&mut r, 1.0);
+                    let mut el = raw(&mut r, 1.0);
                     let ratio = 2.0 + (r.next() % 4) as f32;
-                    l.push(format!("{},CONSUMO,COGEN,{},{}", id, r.pick(&cgn_fuels), fmt(&el.iter().map(|x| x * ratio).collect::<Vec<_>>())));
+                    let fuel_t: Vec<f32> = el.iter().map(|x| x * ratio).collect();
+                    // one time in four the unit burns fuel in a step in which it delivers no electricity
+                    if r.next() % 4 == 0 { let i = (r.next() % ns as u64) as usize; el[i] = 0.0; }
+                    l.push(format!("{},CONSUMO,COGEN,{},{}", id, r.pick(&cgn_fuels), fmt(&fuel_t)));
                     if r.next() % 3 == 0 {
                         l.push(format!("{},PRODUCCION,EL_COGEN,{}", id, fmt(&el.iter().map(|x| x * 0.25).collect::<Vec<_>>())));
                         l.push(format!("{},PRODUCCION,EL_COGEN,{}", id, fmt(&el.iter().map(|x| x * 0.75).collect::<Vec<_>>())));
